@@ -331,9 +331,11 @@ def global_state():
 
 def run_world(spec, argv, child_hook=None, warnings=None, probe=True,
               want_state=False, stdin=None, runner_kw=None, defaults=None,
-              child_stderr_encoding=None):
+              child_stderr_encoding=None, parent_encoding=None):
     """Run the real Runner in-process on ``spec`` with argument vector
-    ``['vt-script'] + argv``.  Returns a Result."""
+    ``['vt-script'] + argv``.  Returns a Result.  ``parent_encoding`` =
+    (encoding, errors) of the process's sys.stdout / sys.stderr (default
+    utf-8 / backslashreplace)."""
     R, F = _mods()
     res = Result()
     ctx = Ctx(spec, child_hook, warnings)
@@ -341,7 +343,7 @@ def run_world(spec, argv, child_hook=None, warnings=None, probe=True,
     _CTX.append(ctx)
     built = worldrt.build(spec)
     prev_mod = worldrt.install(built)
-    out, err = Capture(), Capture()
+    out, err = (Capture(*parent_encoding), Capture(*parent_encoding)) if parent_encoding else (Capture(), Capture())
     saved_streams = (sys.stdout, sys.stderr, sys.stdin)
     saved_syspath = list(sys.path)
     saved_names = (R.subprocess, R.threading, R.time)
